@@ -16,6 +16,16 @@ CHECKS = {
             "Generated specifications (prefix-related names, level words as names, all levels, optional default/regex, built by builder or parser) and per case the full level x target grid logged through the log macros into a switchboard global logger; written set must equal the reference matcher + regex, log::max_level must admit all accepted records and writer ceilings, Log::enabled must equal the matcher. Search over ~1M grid cells per quick run, no proof.",
             "trusts the 15-line reference matcher written from the LogSpecification documentation and the regex crate; custom writers are assumed well-behaved (honour their own ceiling)",
             "DESIGN.md 4/C02"),
+    "C03": ("exploration",
+            "randomised schedule sampling (proptest configurations, barrier-released threads, seed-chosen noise at hook points) with self-checking payloads",
+            "2-8 threads log 20-300 self-checking records each into a rotating file (every naming, Direct/Buffered/Async with tiny pools) or into stdout/stderr of a child; scheduling noise at the hook points widens race windows; the output must split into intact lines, every record exactly once, per-thread order without gaps. Sampling of OS schedules (hundreds of configurations per quick run), no enumeration.",
+            "the OS scheduler chooses the interleaving inside critical sections; replay repeats a configuration 20 times",
+            "DESIGN.md 4/C03"),
+    "C04": ("exploration",
+            "proptest histories with immediate observation after the terminal call (files, committing custom writer, child process ending with _exit)",
+            "Generated histories of writes, flushes, rotations, clone-and-drop of the handle and sleeps in every write mode and output, ended by shutdown(), drop of the last handle or flush(); the output is read immediately after the call returned (the child process _exits) and must hold exactly the records whose log calls had returned, also those logged after a clone of the handle was dropped. Search, not proof; found the clone-drop defect that was repaired.",
+            "timing of flusher/writer threads is sampled, not controlled",
+            "DESIGN.md 4/C04"),
     "C05": ("exploration",
             "model-based testing of reconfiguration histories (proptest sequences + (active, stack) model)",
             "Generated sequences of the five reconfiguration operations incl. malformed strings and pops on an empty stack; after every step enabled()/written records/max_level are compared with the model's active specification, and parse results with the reference parser. Search, not proof.",
